@@ -43,7 +43,7 @@ PROPS = {
 PROBES = {'C14': ['target_without_source_in_range', 'rebind_other_size', 'set_points_after_rebind', 'ill_conditioned_skipped',
                   'property_missing_in_some_array', 'interpolate_after_other_property', 'h_increased_then_update', 'periodic_domain',
                   'order1_repeated', 'order1_3d', 'auto_grid', 'gradient_component', 'integer_typed_targets', 'via_sph_evaluator',
-                  'evaluator_sources_replaced', 'evaluator_target_replaced']}
+                  'evaluator_sources_replaced', 'evaluator_target_replaced', 'targets_2d_C', 'targets_2d_F']}
 
 
 def prepare(prop, tier):
@@ -152,12 +152,15 @@ def gen(t, prop, tier):
         else:
             tg = make_targets()
             if tg is not None:
-                ops.append(['set_points', tg])
+                # optional third element: the target arrays are handed over as 2-D arrays of [rows, memory order]
+                ops.append(['set_points', tg, [t.choice([1, 2, 3, 4]), t.choice(['C', 'F'])]] if t.bool(0.5) else ['set_points', tg])
     ops.append(['interp', 'f', 0])
     sc = dict(dim=dim, method=method, kernel=kernel, narr=narr, arrays=arrays, targets=targets, periodic=periodic, ops=ops,
               linear=lin, L=L, num_points=t.choice([8, 27, 50]))
     # the same equations through the SPHEvaluator front end (evaluate / update / update_particle_arrays)
     sc['via'] = 'evaluator' if (method != 'order1' and t.bool(0.3)) else 'interp'
+    if t.bool(0.4):
+        sc['tlayout'] = [t.choice([1, 2, 3, 4]), t.choice(['C', 'F'])]
     return sc
 
 
@@ -319,6 +322,27 @@ def execute(sc, prop):
         a[:, dim:] = 0.0
         return a
     targets = tgt(sc.get('targets'))
+    user = dict(pts=None, shape=None)      # the target points as the user handed them over (C-order) and the shape of the arrays
+
+    def shaped(a, layout):
+        """x, y, z arrays for the (n, 3) points `a`: flat, or 2-D with `rows` rows in C or Fortran memory order"""
+        n = len(a)
+        rows, order = 1, 'C'
+        if isinstance(layout, list) and len(layout) == 2:
+            try:
+                rows, order = int(layout[0]), str(layout[1])
+            except Exception:
+                raise InvalidScenario('layout')
+        if rows > 1 and n % rows == 0 and order in ('C', 'F'):
+            shp = (rows, n // rows)
+            cols = [np.asarray(a[:, k].reshape(shp), order=order).copy(order=order) for k in range(3)]
+            probe('targets_2d_' + order)
+        else:
+            shp = (n,)
+            cols = [a[:, k].copy() for k in range(3)]
+        user['pts'] = np.asarray(a, dtype=float).copy()
+        user['shape'] = shp
+        return cols
     via = sc.get('via', 'interp')
     if via not in ('interp', 'evaluator') or (via == 'evaluator' and method == 'order1'):
         raise InvalidScenario('via')
@@ -333,8 +357,8 @@ def execute(sc, prop):
             probe('auto_grid')
             interp = Interpolator(arrays, num_points=int(sc.get('num_points', 27)), kernel=kern, domain_manager=dm, method=method)
         else:
-            interp = Interpolator(arrays, kernel=kern, x=targets[:, 0].copy(), y=targets[:, 1].copy(), z=targets[:, 2].copy(),
-                                  domain_manager=dm, method=method)
+            tx0, ty0, tz0 = shaped(targets, sc.get('tlayout'))
+            interp = Interpolator(arrays, kernel=kern, x=tx0, y=ty0, z=tz0, domain_manager=dm, method=method)
     except Exception as e:
         import traceback
         violate('interpolator-raised', 'constructing the interpolator raised %r\n%s' % (e, traceback.format_exc()[-500:]))
@@ -351,7 +375,7 @@ def execute(sc, prop):
 
     def brute(propname, comp):
         tp = interp.pa
-        tx, ty, tz, th = (tp.get(c, only_real_particles=False) for c in ('x', 'y', 'z', 'h'))
+        tx, ty, tz, th = tpos()
         nt = tp.num_real_particles
         exp = np.zeros(nt)
         tolr = np.zeros(nt)
@@ -414,14 +438,32 @@ def execute(sc, prop):
                 tolr[i] = 1e-9 * (absum / den if den > 1e-12 else absum) + 1e-300
         return exp, tolr
 
+    def tpos():
+        """positions of the targets in the order of the (C-order flattened) result: the arrays the user handed over when
+        explicit points were given to the Interpolator, else what the interpolator holds; h as the interpolator holds it"""
+        tp = interp.pa
+        th = tp.get('h', only_real_particles=False)
+        if via == 'interp' and not per and user['pts'] is not None and len(user['pts']) == tp.num_real_particles:
+            # (in a periodic box the domain manager wraps target points lying on or outside a face: read them back instead)
+            a = user['pts']
+            return a[:, 0], a[:, 1], a[:, 2], th
+        return tuple(tp.get(c, only_real_particles=False) for c in ('x', 'y', 'z')) + (th,)
+
     def check_interp(propname, comp):
         try:
-            got = np.atleast_1d(np.asarray(interp.interpolate(propname, comp=comp), dtype=float)).ravel()
+            raw = np.asarray(interp.interpolate(propname, comp=comp), dtype=float)
+            got = np.atleast_1d(raw).ravel()
         except Exception as e:
             import traceback
             violate('interpolate-raised', 'interpolate(%r, comp=%d) raised %r\n%s' % (propname, comp, e, traceback.format_exc()[-400:]))
             return
         nt = interp.pa.num_real_particles
+        if via == 'interp' and user['shape'] is not None and len(got) == nt:
+            want = tuple(k for k in user['shape'] if k != 1)
+            if tuple(raw.shape) != want:
+                violate('result-shape', 'interpolate returned an array of shape %r for target arrays of shape %r' % (tuple(raw.shape), user['shape']),
+                        after=(kinds[-1] if kinds else 'start'))
+                return
         if len(got) != nt:
             violate('result-shape', 'interpolate returned %d values for %d target points' % (len(got), nt))
             return
@@ -431,9 +473,9 @@ def execute(sc, prop):
             bad = ~(np.abs(got - exp) <= tolr) & ~((got != got) & (exp != exp))
             if bad.any():
                 i = int(np.nonzero(bad)[0][0])
-                tp = interp.pa
+                px, py, pz, _ = tpos()
                 violate('value-differs-from-definition', '%s: target %d at (%r, %r, %r) got %r, defining sum gives %r (tolerance %r); %d of %d targets differ'
-                        % (what, i, float(tp.x[i]), float(tp.y[i]), float(tp.z[i]), float(got[i]), float(exp[i]), float(tolr[i]), int(bad.sum()), nt),
+                        % (what, i, float(px[i]), float(py[i]), float(pz[i]), float(got[i]), float(exp[i]), float(tolr[i]), int(bad.sum()), nt),
                         after=(kinds[-1] if kinds else 'start'))
                 return
             if method == 'shepard':
@@ -456,7 +498,7 @@ def execute(sc, prop):
                 return
             # linear reproduction where the moment matrix is well conditioned
             tp = interp.pa
-            tx, ty, tz, th = (tp.get(c, only_real_particles=False) for c in ('x', 'y', 'z', 'h'))
+            tx, ty, tz, th = tpos()
             n = dim + 1
             grad = [0.0, 0.0, 0.0]
             # rho as the evaluator computes it: summation density over all sources (ghosts included)
@@ -615,7 +657,11 @@ def execute(sc, prop):
                 rebound = True
             elif k == 'set_points':
                 tg = tgt(op[1])
-                interp.set_interpolation_points(x=tg[:, 0].copy(), y=tg[:, 1].copy(), z=tg[:, 2].copy())
+                if via == 'interp':
+                    sx_, sy_, sz_ = shaped(tg, op[2] if len(op) > 2 else None)
+                else:
+                    sx_, sy_, sz_ = tg[:, 0].copy(), tg[:, 1].copy(), tg[:, 2].copy()
+                interp.set_interpolation_points(x=sx_, y=sy_, z=sz_)
                 if via == 'evaluator':
                     probe('evaluator_target_replaced')
                 if 'rebind' in kinds:
